@@ -122,6 +122,7 @@ type c14Outcome struct {
 	LateWB     bool // a write-back landed after such a mutation
 	Overlap    bool // two list updates overlapped between their read and their write
 	TTLSets    map[string]int // nil-returned Sets per TTL class
+	TouchRace  bool           // a TTL refresh and a mutation of the same key were in flight together
 	Concurrent bool // two list updates were in flight at the same time (history level)
 	FaultHit   bool
 	Calls      map[string]int
@@ -247,6 +248,16 @@ func (ev *c14Eval) hop(id int) *c14HOp {
 }
 
 func (ev *c14Eval) coverage() {
+	for _, a := range ev.hist {
+		if a.Kind != "touch" || a.Phase != 1 {
+			continue
+		}
+		for _, b := range ev.hist {
+			if b.Phase == 1 && b.mutator() && a.Call < b.Ret && b.Call < a.Ret {
+				ev.out.TouchRace = true
+			}
+		}
+	}
 	for _, h := range ev.hist {
 		if h.Kind == "set" && h.TTL != "" && h.Err == "" {
 			if ev.out.TTLSets == nil {
@@ -599,6 +610,9 @@ func (ev *c14Eval) registers() {
 		upto := len(ev.log)
 		sig, why := ev.classify(node, upto, "")
 		if sig == "" {
+			sig, why = ev.classifyTouch()
+		}
+		if sig == "" {
 			for _, h := range ev.hist {
 				if h.Kind == "set" && h.TTL != "" && h.Err == "" {
 					cls := "negative"
@@ -750,6 +764,10 @@ func (ev *c14Eval) lists() {
 func (ev *c14Eval) classify(node int, upto int, mode string) (sig, why string) {
 	sc := ev.sc
 	// 1. injected fault swallowed by the facade
+	ecls := ""
+	if ev.injected != nil && ev.injected.Class != "" {
+		ecls = "|error=" + ev.injected.Class
+	}
 	if f := ev.fault; f != nil && !c14IsBg(f.Thread) && f.Tier != "pers" {
 		if h := ev.hop(f.HOp); h != nil && h.Err == "" {
 			invalidated := false // did the facade drop the entry it could not overwrite?
@@ -759,7 +777,7 @@ func (ev *c14Eval) classify(node int, upto int, mode string) (sig, why string) {
 				}
 			}
 			if f.Op == "Set" && h.mutator() && !invalidated {
-				return fmt.Sprintf("C14:faultstale|category=%s|pattern=cache-set-error-ignored", ev.cat()),
+				return fmt.Sprintf("C14:faultstale|category=%s|pattern=cache-set-error-ignored%s", ev.cat(), ecls),
 					"the cache write of a " + h.Kind + " failed, the error was swallowed and the old cache entry keeps being served"
 			}
 			if f.Op == "Get" || f.Op == "Exists" {
@@ -773,10 +791,10 @@ func (ev *c14Eval) classify(node int, upto int, mode string) (sig, why string) {
 				if !laterRead {
 					switch {
 					case h.Kind == "append" || h.Kind == "remove":
-						return fmt.Sprintf("C14:faultmask|category=%s|effect=list-overwritten", ev.cat()),
+						return fmt.Sprintf("C14:faultmask|category=%s|effect=list-overwritten%s", ev.cat(), ecls),
 							"a failed cache read inside " + h.Kind + " was reported as not-found, so the list was rebuilt from nothing and written back"
 					case !h.Found:
-						return fmt.Sprintf("C14:faultmask|category=%s|effect=read-notfound", ev.cat()),
+						return fmt.Sprintf("C14:faultmask|category=%s|effect=read-notfound%s", ev.cat(), ecls),
 							"a failed cache read was answered as not-found / false with no error"
 					}
 				}
@@ -855,6 +873,36 @@ func (ev *c14Eval) classifyRaw() (sig, why string) {
 				return fmt.Sprintf("C14:listlost|category=%s|pattern=cold-cache-%s-overwrites", ev.cat(), h.Kind),
 					"with the cache entry gone (restart / expiry) and the full list only in the persistent tier, " + h.Kind +
 						" wrote a list to the persistent tier without loading the stored list first: the earlier members are overwritten"
+			}
+		}
+	}
+	return "", ""
+}
+
+// classifyTouch: a TTL refresh (SetExpiration) implemented as read-value-then-rewrite on
+// a cache tier, with another caller's Set/Delete of the key landing on that tier in
+// between: the refresh writes the older value back after the newer write returned.
+func (ev *c14Eval) classifyTouch() (sig, why string) {
+	for _, h := range ev.hist {
+		if h.Kind != "touch" || h.Err != "" {
+			continue
+		}
+		rd := map[string]int{}
+		for _, i := range h.tier {
+			t := ev.log[i]
+			if t.Err {
+				continue
+			}
+			if t.Op == "Get" {
+				rd[t.Tier] = t.Seq
+			}
+			if r, ok := rd[t.Tier]; ok && t.Op == "Set" {
+				for _, m := range ev.log {
+					if m.Seq > r && m.Seq < t.Seq && m.Tier == t.Tier && m.Key == t.Key && !m.Err && m.HOp != h.ID && (m.Op == "Set" || m.Op == "Delete") {
+						return fmt.Sprintf("C14:touch|cache=%s|fault=rewrites-older-value", c14TierClass(t.Tier)),
+							"SetExpiration read the value from the " + c14TierClass(t.Tier) + " cache tier, another caller's " + m.Op + " of the key completed on that tier, then SetExpiration wrote the value it had read back: every later read returns the older value"
+					}
+				}
 			}
 		}
 	}
